@@ -25,6 +25,7 @@ func c04Case(c *core.Ctx, w WLCase, maxLeaves int64) {
 		return
 	}
 	chunkMsg := ""
+	rejDone := false
 	var rgen func() (*spg.Password, error)
 	d, st, err := wlCell(w, maxLeaves, func(l *Leaf) {
 		// every 7th leaf: the same words delivered one byte per read
@@ -46,13 +47,36 @@ func c04Case(c *core.Ctx, w WLCase, maxLeaves int64) {
 		if m := chunkedReplay(rgen, base, want); m != "" {
 			chunkMsg = m
 		}
+		// runs of rejected words before each draw of the first leaf: every
+		// one must be redrawn, the result must not change
+		if !rejDone {
+			rejDone = true
+			for i := range base {
+				rw := rejectWords(l.Bounds[i])
+				if len(rw) == 0 {
+					continue
+				}
+				for _, k := range []int{1, 2, 5, 9, 17, 40} {
+					v := append([]uint32{}, base[:i]...)
+					for j := 0; j < k; j++ {
+						v = append(v, rw[j%len(rw)])
+					}
+					v = append(v, base[i:]...)
+					got, t := runScript(rgen, v)
+					if !sameOut(got, want) || t.Words != len(base)+k {
+						chunkMsg = fmt.Sprintf("%d rejected words before draw %d (bound %d) changed the result: %q (%s%s, %d words used) instead of %q (%d words + %d redraws expected)", k, i, l.Bounds[i], tokKey(got.Toks), got.Err, got.Panic, t.Words, tokKey(want.Toks), len(base), k)
+						return
+					}
+				}
+			}
+		}
 	})
 	if err != nil {
 		c.Violation(key+" build", "NewWordList failed: "+err.Error(), rp)
 		return
 	}
 	if chunkMsg != "" {
-		c.Violation(key+" chunked", chunkMsg, rp)
+		c.Violation(key+" replay", chunkMsg, rp)
 		return
 	}
 	c.Count("executions", st.Leaves)
@@ -299,14 +323,17 @@ func c04Run(c *core.Ctx) {
 		c04Case(c, w, maxLeaves*4)
 	}
 	// long recipes: single-deviation coverage
-	longL := []int{4, 8, 16, 17, 18, 33}
+	longL := []int{4, 8, 16, 17, 18, 33, 64, 65, 130}
 	if c.Thorough() {
-		longL = []int{4, 5, 7, 8, 9, 15, 16, 17, 18, 31, 32, 33, 34, 64, 65}
+		longL = []int{4, 5, 7, 8, 9, 15, 16, 17, 18, 31, 32, 33, 34, 63, 64, 65, 66, 127, 128, 129, 130, 255, 256, 257, 300}
 	}
 	for _, L := range longL {
 		for _, ws := range [][]string{{"ab"}, {"ab", "cd"}, {"ab", "cd", "efg"}} {
 			for _, cp := range wlSchemes {
 				for _, sp := range []Sep{{Kind: "none"}, {Kind: "char", Char: "-"}, {Kind: "SFDigits1"}} {
+					if L > 33 && (len(ws) > 2 || sp.Kind == "SFDigits1") {
+						continue // long recipes: small lists, constant separators
+					}
 					if c.Mine() {
 						c04Coverage(c, WLCase{Words: ws, Length: L, Cap: cp, Sep: sp})
 					}
